@@ -10,7 +10,7 @@ use bacon_sci::ivp::{Euler, IVPError, IVPSolver};
 use nalgebra::{Const, Dyn};
 
 #[derive(Clone, Copy, Debug, PartialEq, Eq)]
-pub enum Call {
+pub enum BCall {
     Tol,
     Min,
     Max,
@@ -34,7 +34,7 @@ fn variant(e: &IVPError) -> String {
 }
 
 /// apply the call sequence with symbolic values to the real builder and to the model; compare outcomes
-fn builder_seq<'a, S, Slv>(kind: Kind, seq: &[Call], log: &Log<S>)
+fn builder_seq<'a, S, Slv>(kind: Kind, seq: &[BCall], log: &Log<S>)
 where
     S: Sc,
     Slv: IVPSolver<'a, Const<1>, Field = S, RealField = S, UserData = (), Error = IVPError, Derivative = Rhs<S, Const<1>>>,
@@ -53,27 +53,27 @@ where
         let v = S::input(&format!("v{}", i), -5.0, 5.0);
         // the model's verdict (a condition over the symbolic value) and the real builder's result
         let (res, want_err, errname): (Result<Slv, IVPError>, S::Bl, &str) = match c {
-            Call::Tol => {
+            BCall::Tol => {
                 let bad = if kind == Kind::Euler { S::b_const(false) } else { S::b_le(v, zero) };
                 m.tol = true;
                 (b.with_tolerance(v), bad, "ToleranceOOB")
             }
-            Call::Min => {
+            BCall::Min => {
                 let bad = S::b_le(v, zero);
                 (b.with_minimum_dt(v), bad, "TimeDeltaOOB")
             }
-            Call::Max => {
+            BCall::Max => {
                 let bad = S::b_le(v, zero);
                 (b.with_maximum_dt(v), bad, "TimeDeltaOOB")
             }
-            Call::T0 => {
+            BCall::T0 => {
                 let bad = match m.t1 {
                     Some(e) => S::b_le(e, v),
                     None => S::b_const(false),
                 };
                 (b.with_initial_time(v), bad, "TimeStartOOB")
             }
-            Call::T1 => {
+            BCall::T1 => {
                 let bad = match m.t0 {
                     Some(s) => S::b_le(v, s),
                     None => S::b_const(false),
@@ -92,7 +92,7 @@ where
                 b = nb;
                 // model update
                 match c {
-                    Call::Min => {
+                    BCall::Min => {
                         if kind == Kind::Euler {
                             // Euler keeps one step: the mean of what it had and the new value
                             let cur = m.min.or(m.max);
@@ -109,7 +109,7 @@ where
                             }
                         }
                     }
-                    Call::Max => {
+                    BCall::Max => {
                         if kind == Kind::Euler {
                             let cur = m.min.or(m.max);
                             let nv = match cur {
@@ -125,9 +125,9 @@ where
                             }
                         }
                     }
-                    Call::T0 => m.t0 = Some(v),
-                    Call::T1 => m.t1 = Some(v),
-                    Call::Tol => {}
+                    BCall::T0 => m.t0 = Some(v),
+                    BCall::T1 => m.t1 = Some(v),
+                    BCall::Tol => {}
                 }
             }
         }
@@ -172,7 +172,7 @@ where
     }
 }
 
-fn builder<S: Sc>(kind: Kind, seq: Vec<Call>) {
+fn builder<S: Sc>(kind: Kind, seq: Vec<BCall>) {
     let log = new_log::<S>();
     match kind {
         Kind::Euler => builder_seq::<S, Euler<S, Const<1>, (), Rhs<S, Const<1>>>>(kind, &seq, &log),
@@ -295,9 +295,9 @@ fn collect_vec_error<S: Sc>(kind: Kind, k: usize) {
     }
 }
 
-fn sequences(len: usize) -> Vec<Vec<Call>> {
-    let alphabet = [Call::Tol, Call::Min, Call::Max, Call::T0, Call::T1];
-    let mut out: Vec<Vec<Call>> = vec![vec![]];
+fn sequences(len: usize) -> Vec<Vec<BCall>> {
+    let alphabet = [BCall::Tol, BCall::Min, BCall::Max, BCall::T0, BCall::T1];
+    let mut out: Vec<Vec<BCall>> = vec![vec![]];
     let mut all = vec![vec![]];
     for _ in 0..len {
         let mut next = vec![];
@@ -328,7 +328,7 @@ pub fn run(pr: &mut PropRun, t: &Tier) {
     let seqs = sequences(len);
     for kind in Kind::ALL {
         // longest sequences for two representative builders in the quick tier (the builder code is shared per family)
-        for s in &seqs {
+        for s in seqs.iter().cloned() {
             if !t.thorough && s.len() == len && !matches!(kind, Kind::Euler | Kind::RK45 | Kind::Adams3 | Kind::BDF2) {
                 continue;
             }
